@@ -80,10 +80,19 @@ func c19Gen(r *vh.Rng, maxOps int) []string {
 		case k <= 7:
 			en2 := fmt.Sprintf("%0*x", en2size*2, r.Intn(sharePool))
 			ntime := fmt.Sprintf("%08x", 0x64c25820+r.Intn(2))
-			nonce := fmt.Sprintf("%08x", r.Intn(sharePool))
+			nonce := fmt.Sprintf("%08x", 0xabcdef00+r.Intn(sharePool))
 			vm := "-"
 			if r.Bool(50) {
 				vm = fmt.Sprintf("%08x", r.Intn(2)<<13)
+			}
+			// the same share may be spelled with capital hex digits: it is the same extranonce2 / ntime / nonce / version bits
+			if r.Bool(30) {
+				nonce = strings.ToUpper(nonce)
+			}
+			if r.Bool(15) {
+				en2 = strings.ToUpper(fmt.Sprintf("%0*x", en2size*2, 0xab00+r.Intn(sharePool)))
+			} else if r.Bool(15) {
+				en2 = fmt.Sprintf("%0*x", en2size*2, 0xab00+r.Intn(sharePool))
 			}
 			ops = append(ops, fmt.Sprintf("submit %s %s %s %s %s %d", pickID(), en2, ntime, nonce, vm, now))
 		case k == 8:
